@@ -147,16 +147,11 @@ func (enc *Encoder) writePtr(v interface{}, encode func(m ValueEncoder, v interf
 	case reflect.Ptr:
 		// a pointer to a pointer is a level of nesting like any other (see writeValue): a
 		// cycle of nothing but pointers (type P *P) would be followed for ever
-		if enc.depth >= maxDepth {
-			if enc.Error == nil {
-				enc.Error = ErrNestedTooDeep
-			}
-			enc.WriteNil()
+		if !enc.enter(v) {
 			return
 		}
-		enc.depth++
+		defer enc.leave(v)
 		encode(ptrenc, e.Interface())
-		enc.depth--
 	case reflect.Interface:
 		encode(intfenc, e.Interface())
 	default:
